@@ -895,11 +895,31 @@ func (ex *Exec) slice(fr *frame, instr *ssa.Slice, x, lo, hi, max Value) Value {
 		if v == nil {
 			return def
 		}
-		c, ok := v.(int64)
-		if !ok {
-			ex.inconclusive("symbolic slice bound at " + fr.posStr())
+		switch c := v.(type) {
+		case int64:
+			return c
+		case *Term:
+			// case-split a symbolic bound over the (small) container
+			n := Len
+			if Cap > n {
+				n = Cap
+			}
+			if n > 32 {
+				ex.inconclusive("symbolic slice bound into container of length > 32 at " + fr.posStr())
+			}
+			guards := make([]*Term, 0, n+2)
+			for k := 0; k <= n; k++ {
+				guards = append(guards, TEq(c, TInt(int64(k))))
+			}
+			guards = append(guards, TOr(TLt(c, TInt(0)), TGt(c, TInt(int64(n)))))
+			k := ex.decide("slicebound", guards)
+			if k == n+1 {
+				ex.runtimePanic(fr, "slice bounds out of range (symbolic)")
+			}
+			return int64(k)
 		}
-		return c
+		ex.inconclusive("unsupported slice bound at " + fr.posStr())
+		return 0
 	}
 	l := conc(lo, 0)
 	h := conc(hi, int64(Len))
